@@ -5,6 +5,7 @@ import (
 	"runtime"
 	"sort"
 	"sync"
+	"sync/atomic"
 	"time"
 
 	"github.com/junegunn/fzf/src/util"
@@ -17,6 +18,7 @@ type MatchRequest struct {
 	final    bool
 	sort     bool
 	revision revision
+	sequence uint64
 }
 
 // Matcher is responsible for performing search
@@ -31,6 +33,7 @@ type Matcher struct {
 	slab           []*util.Slab
 	mergerCache    map[string]*Merger
 	revision       revision
+	sequence       uint64
 }
 
 const (
@@ -71,7 +74,11 @@ func (m *Matcher) Loop() {
 				}
 				switch val := val.(type) {
 				case MatchRequest:
-					request = val
+					// Both reqRetry and reqReset can be pending; take the most
+					// recent one regardless of the iteration order of the map
+					if request.pattern == nil || val.sequence > request.sequence {
+						request = val
+					}
 				default:
 					panic(fmt.Sprintf("Unexpected type: %T", val))
 				}
@@ -249,7 +256,8 @@ func (m *Matcher) Reset(chunks []*Chunk, patternRunes []rune, cancel bool, final
 	} else {
 		event = reqRetry
 	}
-	m.reqBox.Set(event, MatchRequest{chunks, pattern, final, sort, revision})
+	sequence := atomic.AddUint64(&m.sequence, 1)
+	m.reqBox.Set(event, MatchRequest{chunks, pattern, final, sort, revision, sequence})
 }
 
 func (m *Matcher) Stop() {
